@@ -1,2 +1,6 @@
 pub mod aux;
+pub mod explore;
+pub mod gw;
+pub mod refs;
+pub mod report;
 pub mod world;
